@@ -1649,7 +1649,14 @@ func (e *crashEnv) killJob(k int, wl crashWorkload, mech string, rng *rand.Rand,
 				cands = append(cands, h)
 			}
 		}
-		if len(cands) == 0 {
+		if i := strings.Index(emulate, "#"); i > 0 && ref[emulate[:i]] > 0 {
+			// directed crash point: a named hook and its occurrence
+			s.ExitName = emulate[:i]
+			fmt.Sscanf(emulate[i+1:], "%d", &s.ExitOcc)
+			if s.ExitOcc > ref[s.ExitName] {
+				s.ExitOcc = ref[s.ExitName]
+			}
+		} else if len(cands) == 0 {
 			s.ExitAt = 1 + rng.Intn(ref["#hits"])
 		} else {
 			s.ExitName = cands[rng.Intn(len(cands))]
@@ -1813,8 +1820,16 @@ func crashRunKill(c *Ctx, e *crashEnv, fixDir, fixZero bool) error {
 	var jobs []job
 	jobs = append(jobs, job{0, 1, "emulate", 0, "wal-delete-window"}, job{1, 0, "emulate", 0, "wal-create-window"},
 		job{2, 0, "managed-batch", 0, ""})
+	// directed crash points on the workload with explicit compactions: every step of a flush and of
+	// a compaction (tables built / MANIFEST appended / levels updated and input files deleted)
+	k0 := 3
+	for _, pt := range []string{"persist.compact.built#1", "persist.compact.manifest#1", "persist.compact.installed#1",
+		"persist.compact.installed#2", "persist.compact.manifest#2", "persist.flush.table#1", "persist.flush.manifest#2"} {
+		jobs = append(jobs, job{k0, 5, "exit-hook", int64(k0), pt})
+		k0++
+	}
 	mechs := []string{"exit-hook", "exit-hit", "sigkill", "exit-hook", "exit-hit"}
-	for k := 3; k < c.N+3; k++ {
+	for k := k0; k < c.N+3; k++ {
 		jobs = append(jobs, job{k, []int{0, 1, 2, 3, 4, 5, 0, 1, 5}[c.Rng.Intn(9)], mechs[k%len(mechs)], c.Rng.Int63(), ""})
 	}
 	results := make([]crashResult, len(jobs))
